@@ -406,6 +406,8 @@ pub fn run_hs(cfg: &HsCfg, sc: &mut Sc) -> HsTrace {
     };
     if cfg.query_each_step {
         query_check(sc, 0, 0, &s_known_i, &s_known_r);
+        let _ = sc.ex.raw_split(1);
+        let _ = sc.ex.raw_split(2);
     }
 
     for k in 0..nmsgs {
@@ -691,6 +693,8 @@ pub fn run_hs(cfg: &HsCfg, sc: &mut Sc) -> HsTrace {
         }
         if cfg.query_each_step {
             query_check(sc, k + 1, k + 1, &s_known_i, &s_known_r);
+            // callable at any time; must not disturb the session (the rest of the run is compared with the model)
+            let _ = sc.ex.raw_split(if k % 2 == 0 { 1 } else { 2 });
         }
     }
 
@@ -725,6 +729,15 @@ pub fn run_hs(cfg: &HsCfg, sc: &mut Sc) -> HsTrace {
         }
     }
     let oneway = nmsgs == 1;
+    // dangerously_get_raw_split on the finished handshake: both sides return the same pair, and it is the pair of
+    // keys the transport cipher states use (checked below against the recording cipher)
+    let raw_i = sc.ex.raw_split(1);
+    let raw_r = sc.ex.raw_split(2);
+    if raw_i.is_none() || raw_r.is_none() {
+        sc.viol("C10", format!("{name}: dangerously_get_raw_split panicked"));
+    } else if raw_i != raw_r {
+        sc.viol("C02", format!("{name}: the two sides' raw splits differ after an honest handshake"));
+    }
     let ci = sc.ex.convert(1, cfg.stateless);
     let cr = sc.ex.convert(2, cfg.stateless);
     sc.check_panic(&ci, "convert");
@@ -754,6 +767,16 @@ pub fn run_hs(cfg: &HsCfg, sc: &mut Sc) -> HsTrace {
         let o = if cfg.stateless { sc.ex.st_write(w, nonce, &p, plen + 16) } else { sc.ex.t_write(w, &p, plen + 16) };
         sc.check_panic(&o, "transport write");
         record_encs(&mut tr, &sc.ex.last_events.clone());
+        if let Some((k1, k2)) = &raw_i {
+            for e in &sc.ex.last_events.clone() {
+                if let Ev::Enc { key, .. } = e {
+                    let exp = if from_i { k1 } else { k2 };
+                    if key != exp {
+                        sc.viol("C01", format!("{name}: transport write {j} ({}) encrypts under a key that is not the corresponding half of the raw split", if from_i { "initiator" } else { "responder" }));
+                    }
+                }
+            }
+        }
         let Some(m) = o.bytes().map(<[u8]>::to_vec) else {
             sc.viol("C02", format!("{name}: transport write {j} failed: {o:?}"));
             return tr;
